@@ -129,6 +129,18 @@ pub fn c12(ctx: &Ctx) -> PropResult {
     let mut rng = mk_rng(ctx.seed, 12);
     let extra = if ctx.quick() { 40 } else { 1_500 };
     let mut all_programs = programs.clone();
+    // the source as a byte string: what surrounds it must not matter to any mode, what is inside must reach the lexer intact
+    for src in ["DISPLAY(1)\n\\\n", "DISPLAY(1) \\\n\n\n", "  \n\tDISPLAY(2)  \n  ", "DISPLAY(3)\r", "\n\n\nDISPLAY(4)", "DISPLAY(\"trailing blanks in a string   \")   ", "x <- \"unterminated at the very end  ", "DISPLAY(5) \\"] {
+        all_programs.push(("bytes", src.to_string()));
+    }
+    // multi-byte characters at every byte offset around 64, 128 and 256 (buffers, previews, debug headers)
+    for around in [64usize, 128, 256] {
+        for pad in around.saturating_sub(if ctx.quick() { 5 } else { 12 })..around + 3 {
+            let head = "n <- \"";
+            let fill = pad.saturating_sub(head.len());
+            all_programs.push(("bytes", format!("{head}{}é中😀\"\nDISPLAY(n)\n", "a".repeat(fill))));
+        }
+    }
     for _ in 0..extra {
         let mut g = Gen::new(&mut rng);
         let k = 1 + g.rng.below(4);
@@ -393,6 +405,13 @@ pub fn c13(ctx: &Ctx) -> PropResult {
             forms.push((format!("IMPORT [\"{a}\", \"{b}\"] FROM MOD \"{m}\"\n"), vec![a, b], "list"));
         }
         forms.push((format!("IMPORT \"NO_SUCH_NAME\" FROM MOD \"{m}\"\n"), vec![], "unknown-name"));
+        // names are exact: another casing of an existing name is an unknown name
+        if let Some((n0, _)) = names.first() {
+            let mixed: String = n0.chars().enumerate().map(|(i, c)| if i % 2 == 0 { c.to_ascii_lowercase() } else { c }).collect();
+            forms.push((format!("IMPORT \"{}\" FROM MOD \"{m}\"\n", n0.to_lowercase()), vec![], "unknown-name"));
+            forms.push((format!("IMPORT [\"{}\", \"{}\"] FROM MOD \"{m}\"\n", n0, mixed), vec![], "unknown-name"));
+        }
+        forms.push((format!("IMPORT MOD \"{}\"\n", m.to_lowercase()), vec![], "unknown-name"));
         for (imp, visible, kind) in forms {
             for (pm, pn, pa) in &reg {
                 if ctx.quick() && *kind != *"unknown-name" && rng.below(3) != 0 && pm != m {
@@ -457,6 +476,7 @@ pub fn c13(ctx: &Ctx) -> PropResult {
         module.push_str("EXPORT PROCEDURE pub_one(x) {\n DISPLAY(\"in pub_one\")\n RETURN x + 1\n}\n");
         module.push_str("EXPORT PROCEDURE pub_two(x) {\n RETURN pub_one(x) * 2\n}\n");
         module.push_str("PROCEDURE private_helper(x) {\n RETURN x\n}\n");
+        module.push_str("EXPORT PROCEDURE LOUD(x) {\n RETURN x\n}\n");
         module.push_str("DISPLAY(pub_two(1))\nDISPLAY(private_helper(5))\n");
         match kind {
             0 => module.push_str("DISPLAY(1 / 0)\n"),
@@ -466,8 +486,10 @@ pub fn c13(ctx: &Ctx) -> PropResult {
             _ => {}
         }
         let inner = "DISPLAY(\"inner top-level\")\nEXPORT PROCEDURE inner_fn() {\n RETURN \"inner\"\n}\n".to_string();
-        let import = match if kind == 3 { rng.below(7) } else { rng.below(5) } {
+        let import = match if kind == 3 { rng.below(7) } else { [0usize, 1, 2, 3, 4, 7, 8, 3, 4][rng.below(9)] } {
             // a module does not re-export what it imported itself
+            7 => format!("IMPORT \"loud\" FROM MOD \"{sub}m{i}.ap\"\n"),
+            8 => format!("IMPORT [\"LOUD\", \"Pub_One\"] FROM MOD \"{sub}m{i}.ap\"\n"),
             5 => format!("IMPORT \"inner_fn\" FROM MOD \"{sub}m{i}.ap\"\n"),
             6 => format!("IMPORT [\"pub_one\", \"inner_fn\"] FROM MOD \"{sub}m{i}.ap\"\n"),
             0 => format!("IMPORT \"pub_one\" FROM MOD \"{sub}m{i}.ap\"\n"),
@@ -711,19 +733,29 @@ fn with_captured_fds<R>(f: impl FnOnce() -> R) -> (R, Vec<u8>, Vec<u8>) {
     let f2 = std::fs::File::create(&p2).unwrap();
     std::io::stdout().flush().ok();
     std::io::stderr().flush().ok();
-    let (save1, save2);
+    let (save0, save1, save2);
     unsafe {
+        save0 = libc::dup(0);
         save1 = libc::dup(1);
         save2 = libc::dup(2);
         libc::dup2(f1.as_raw_fd(), 1);
         libc::dup2(f2.as_raw_fd(), 2);
+        // standard input: a pipe whose writing end is closed (INPUT sees end of input at once, whatever the caller's stdin is)
+        let mut fds = [0i32; 2];
+        if libc::pipe(fds.as_mut_ptr()) == 0 {
+            libc::close(fds[1]);
+            libc::dup2(fds[0], 0);
+            libc::close(fds[0]);
+        }
     }
     let r = f();
     std::io::stdout().flush().ok();
     std::io::stderr().flush().ok();
     unsafe {
+        libc::dup2(save0, 0);
         libc::dup2(save1, 1);
         libc::dup2(save2, 2);
+        libc::close(save0);
         libc::close(save1);
         libc::close(save2);
     }
@@ -737,9 +769,10 @@ pub fn c18(ctx: &Ctx) -> PropResult {
     let reg = extract::registry();
     let mut programs: Vec<(String, String)> = vec![];
     let all_imports: String = ["MATH", "STRING", "IO", "STYLE", "TIME", "MAP", "ROBOT"].iter().map(|m| format!("IMPORT MOD \"{m}\"\n")).collect();
-    // every library procedure once with plausible arguments (FS and INPUT excluded: they touch the outside world by design)
+    // every library procedure once with plausible arguments (FS excluded: it touches the outside world by design;
+    // INPUT / INPUT_PROMPT read an empty standard input)
     for (m, name, arity) in &reg {
-        if m == "FS" || name.starts_with("INPUT") || name == "SLEEP" {
+        if m == "FS" || name == "SLEEP" {
             continue;
         }
         let arg = |i: usize| -> &str {
@@ -750,6 +783,7 @@ pub fn c18(ctx: &Ctx) -> PropResult {
                 ("FORMAT", 0) | ("DISPLAYF", 0) => "\"{}!\"",
                 ("FORMAT", 1) | ("DISPLAYF", 1) => "[\"v\"]",
                 ("STYLE", _) => "\"red\"",
+                ("INPUT_PROMPT", _) => "\"prompt> \"",
                 ("ROBOT_MAP", _) => "\".n.\"",
                 ("CAN_MOVE", 1) => "\"left\"",
                 (n, 0) if n.starts_with("MAP_") => "mp",
@@ -787,6 +821,26 @@ pub fn c18(ctx: &Ctx) -> PropResult {
     ] {
         programs.push((tag.to_string(), src.to_string()));
     }
+    // user modules: good, with a lexical / syntax / runtime error, missing; whole and selective imports
+    let mod_dir = scratch_dir("c18-modules");
+    let mods: Vec<(&str, &str)> = vec![
+        ("good.ap", "DISPLAY(\"module top\")\nEXPORT PROCEDURE g() {\n DISPLAY(\"in g\")\n RETURN 1\n}\n"),
+        ("bad_lex.ap", "DISPLAY(\"never\")\nx = 1 # ?\n"),
+        ("bad_parse.ap", "DISPLAY(\"never\")\nEXPORT PROCEDURE h( {\n RETURN (1\n}\n"),
+        ("bad_run.ap", "DISPLAY(\"module top\")\nx <- 1 / 0\n"),
+        ("warn.ap", "EXPORT PROCEDURE w() {\n REPEAT 2 TIMES {\n  BREAK\n  DISPLAY(\"dead\")\n }\n RETURN 2\n}\n"),
+    ];
+    for (n, c) in &mods {
+        std::fs::write(mod_dir.join(n), c).unwrap();
+    }
+    for (n, _) in &mods {
+        programs.push(("user-module".into(), format!("DISPLAY(\"A\")\nIMPORT MOD \"{n}\"\nDISPLAY(\"B\")\n")));
+        programs.push(("user-module".into(), format!("DISPLAY(\"A\")\nIMPORT \"g\" FROM MOD \"{n}\"\nDISPLAY(g())\n")));
+        programs.push(("user-module".into(), format!("DISPLAY(\"A\")\nIMPORT [\"w\", \"nope\"] FROM MOD \"{n}\"\nDISPLAY(\"B\")\n")));
+    }
+    programs.push(("user-module".into(), "DISPLAY(\"A\")\nIMPORT MOD \"missing.ap\"\nDISPLAY(\"B\")\n".into()));
+    let main_path = mod_dir.join("main.ap").to_string_lossy().to_string();
+    let model_files: String = mods.iter().map(|(n, c)| format!("h{}=f{}", hex(mod_dir.join(n).to_string_lossy().as_bytes()), hex(c.as_bytes()))).collect::<Vec<_>>().join(",");
     let mut rng = mk_rng(ctx.seed, 18);
     let n = if ctx.quick() { 150 } else { 5_000 };
     for _ in 0..n {
@@ -798,7 +852,7 @@ pub fn c18(ctx: &Ctx) -> PropResult {
     let mut d = Driver::spawn(&ctx.driver);
     let mut model_outs = vec![];
     for (_, src) in &programs {
-        let reply = d.ask(&format!("RUN h{} h h 1000000 - -", hex(src.as_bytes())));
+        let reply = d.ask(&format!("RUN h{} h h{} 1000000 - {}", hex(src.as_bytes()), hex(main_path.as_bytes()), model_files));
         model_outs.push(imp::parse_model_run(&reply).map(|x| x.0));
     }
     let (runs, fd1, fd2) = with_captured_fds(|| {
@@ -811,7 +865,7 @@ pub fn c18(ctx: &Ctx) -> PropResult {
                 } else {
                     // lexing and parsing alone must be silent as well
                     let _ = imp::parse_record(src);
-                    Some(imp::run_impl(src, "", 10000, 32))
+                    Some(imp::run_impl(src, &main_path, 10000, 32))
                 }
             })
             .collect::<Vec<_>>()
@@ -850,7 +904,7 @@ pub fn c18(ctx: &Ctx) -> PropResult {
         for (_, src) in &programs {
             let (_, a, b) = with_captured_fds(|| {
                 let _ = imp::parse_record(src);
-                imp::run_impl(src, "", 10000, 32)
+                imp::run_impl(src, &main_path, 10000, 32)
             });
             if !a.is_empty() || !b.is_empty() {
                 culprit = src.clone();
